@@ -33,7 +33,7 @@ func runGentest(args []string) int {
 	for i := 0; i < n; i++ {
 		switch kind {
 		case "own":
-			p := genOwnProgram(prng.Stream(seed, "heapsim", "gen", i), i, i%2 == 0)
+			p := genOwnProgramOpt(prng.Stream(seed, "heapsim", "gen", i), i, i%2 == 0, i%3 == 0)
 			jobs = append(jobs, fwproto.Job{ID: i, Tree: &simdisk.Tree{Files: p.Files}, Root: p.Root, Source: true})
 			texts = append(texts, string(p.Files[p.Root]))
 		case "alias":
@@ -106,7 +106,7 @@ func gentestBuild(n int) int {
 	tc := buildToolchain()
 	var jobs []*heapJob
 	for i := 0; i < n; i++ {
-		p := genOwnProgram(prng.Stream(seed, "heapsim", "gen", i), i, i%2 == 0)
+		p := genOwnProgramOpt(prng.Stream(seed, "heapsim", "gen", i), i, i%2 == 0, i%3 == 0)
 		jobs = append(jobs, &heapJob{Prog: p, Cfg: BuildCfg{O: 1, LinkMods: true, LinkList: true}, Policies: []HeapPolicy{strictPolicy}})
 	}
 	outs := runHeapJobs(tc, jobs, tc.Kddp)
